@@ -41,8 +41,9 @@ class LoopSpec:
     ghost = None
     var = None
 
-    def __init__(self, inv, var=None, ghost=None, havoc=None, for_guard=None, for_item=None):
+    def __init__(self, inv, var=None, ghost=None, havoc=None, for_guard=None, for_item=None, step=None):
         self.inv = inv
+        self.step = step                  # two-state claims about one iteration: step(it, pre_env, env, g) -> dict
         self.var = var
         self.ghost = ghost
         self._havoc = havoc
@@ -51,6 +52,9 @@ class LoopSpec:
 
     def havoc(self, it, env, g, targets):
         custom = self._havoc or {}
+        for t in custom:                 # object state mutated through references (not a name assignment)
+            if t not in targets and t in env:
+                env[t] = custom[t](it, env, g)
         for t in sorted(targets):
             if t in custom:
                 env[t] = custom[t](it, env, g)
@@ -94,19 +98,22 @@ class Contract:
     def setup(self, cx):
         raise NotImplementedError
 
-    def pre(self, cx, **p):
+    def pre(c, cx, **p):
         return True
 
-    def post(self, cx, result, **p):
+    def post(c, cx, result, **p):
         return {}
 
-    def result(self, cx, **p):
+    def result(c, cx, **p):
         """call-site: havoc the frame and return a fresh result value"""
         return None
 
-    def normal_when(self, cx, **p):
-        if self.exact_raises:
-            return And(*[Not(c(cx, **p)) for c in self.raises.values()])
+    def normal_when(c, cx, **p):
+        if c.exact_raises:
+            return And(*[Not(f(cx, **p)) for f in c.raises.values()])
+        return True
+
+    def use_contract_at(c, it, args, kwargs):
         return True
 
     def build(self, inputs):
